@@ -920,8 +920,9 @@ func TestVerif_C22_History(t *testing.T) {
 		}
 		cfg := config.GetDefaultLocal()
 		// the LRU caches and the verified-txn cache preallocate ~100k entries each, which dominates the cost of a case
-		cfg.DisableLedgerLRUCache = c22R(t, "lru", 0, 7) != 0
+		cfg.DisableLedgerLRUCache = c22R(t, "lru", 0, 9) != 0
 		cfg.VerifiedTranscationsCacheSize = 2000
+		cfg.TxPoolSize = 1000 // OpenLedger sizes the verified-txn cache to at least TxPoolSize
 		t0 := time.Now()
 		l := newSimpleLedgerWithConsensusVersion(tt, gen, cv, cfg, simpleLedgerLogger(quiet))
 		defer l.Close()
